@@ -65,7 +65,7 @@ def shift_witness(cl, port, prefix):
 
 
 # ------------------------------------------------------------------------------------------------ link cut
-def cut_scenario(cl, prefix, nflight=6):
+def cut_scenario(cl, prefix, nflight=6, cutafter=None):
     """binary client pipelines nflight LOCKs through the follower while the proxy holds back the leader's results, then
     the forwarding link is cut (results dropped).  A text client with one waiting LOCK shares the fate.
     C10 reading: every command that was accepted gets SOME answer (the leader's, or an error)."""
@@ -84,15 +84,20 @@ def cut_scenario(cl, prefix, nflight=6):
     h = cl.run_plan(cl.fport, [sc], tmax_ms=2500)
     time.sleep(0.25)
     cl.ctl("mark cut-scenario " + prefix)
-    cl.ctl("block on")
-    time.sleep(0.65)
-    cl.ctl("cut")
-    cl.ctl("block off")
+    if cutafter is None:
+        cl.ctl("block on")          # results pile up in the proxy, then the link is cut and they are dropped
+        time.sleep(0.65)
+        cl.ctl("cut")
+        cl.ctl("block off")
+    else:
+        cl.ctl("cutafter %d" % cutafter)   # the link that relays the cutafter-th result from now on is closed right behind it
+        time.sleep(0.65)
+        cl.ctl("cutafter -1")
     out = cl.collect(h)[sc["id"]]
     st = out["steps"]
     fl = [st[4 + j] for j in range(nflight)]
     answered = [s.get("reply") is not None for s in fl]
-    res = {"prefix": prefix, "nflight": nflight, "answered": answered, "results": [(s["reply"] or {}).get("result") if s.get("reply") else None for s in fl],
+    res = {"prefix": prefix, "nflight": nflight, "cutafter": cutafter, "answered": answered, "results": [(s["reply"] or {}).get("result") if s.get("reply") else None for s in fl],
            "text_inflight_reply": st[4 + nflight].get("reply"), "after_bin": (st[-2].get("reply") or {}).get("result") if st[-2].get("reply") else None,
            "after_text": st[-1].get("reply"), "extras": out["extras"], "conn_errors": out["conn_errors"], "wall_s": round(time.time() - t0, 2),
            "script": sc, "out": out, "text_steps_on_cut_link": [2, 4 + nflight]}
